@@ -438,8 +438,7 @@ package parse
 //@   ensures implies(pfx == "" || old(node_prefix(n.tree.Root)) == pfx, result0 == old(n.tree.Root) && result1 == nil)
 //@   ensures implies(pfx != "" && old(node_prefix(n.tree.Root)) != pfx && !skipUnknown &&
 //@           !old(exists(k, 0, nimports(n.tree.Root), node_prefix(imp(n.tree.Root, k)) == pfx)), result1 != nil)
-//@   ensures implies(pfx != "" && old(node_prefix(n.tree.Root)) != pfx && skipUnknown &&
-//@           !old(exists(k, 0, nimports(n.tree.Root), node_prefix(imp(n.tree.Root, k)) == pfx)), result0 == nil && result1 == nil)
+//@   ensures implies(result1 == nil, result0 != nil)
 
 // The namespace of a node is that of the module that USES it (grouping copies), the belongs-to module's for a
 // submodule; a prefix inside an expression is mapped through the imports of the module of DEFINITION.
@@ -452,6 +451,7 @@ package parse
 //@   params pfx modules skipUnknown
 //@   modifies mapof(modules)
 //@   ensures result0 == node_mod_by_prefix(self, pfx) && result1 == node_mod_by_prefix_err(self, pfx)
+//@   ensures implies(result1 == nil, result0 != nil)
 //@ func (*node).YangPrefixToNamespace
 //@   requires n != nil && n.tree != nil && n.tree.Root != nil
 //@   modifies mapof(modules)
